@@ -6,7 +6,7 @@ package types
 
 // address = 0x00 || sha3-256(pubkey)[:19]; the hash stays uninterpreted.
 //@ spec addrOfKey(pk int) arr
-//@   axiom result[0] == 0
+
 
 //@ func PubKeyToAddress(pubKey)
 //@   trusted
